@@ -3,7 +3,8 @@
    (the production trees of mediaquery.py / medialist.py / value.py, regenerated from the source on every run).
    Every theorem is stated for ALL production trees, environments of sub-grammars, option sets and token lists
    unless a grammar is named.                                                                                 *)
-From CssV Require Import Base Regex Tokenizer ProdParser ProdParserFacts Gen.ProdTrees ProdParserSafe ProdParserBridge ProdParserItems ProdParserDepth.
+From CssV Require Import Base Regex Tokenizer ProdParser ProdParserFacts Gen.ProdTrees ProdParserSafe ProdParserBridge ProdParserItems ProdParserDepth ProdParserMedia ProdParserPushed.
+From CssV Require Grammar.
 From CssV Require Globals Gen.GlobalSites ParseTotal ParseSkel.
 Local Open Scope nat_scope.
 
@@ -78,16 +79,29 @@ Example pparse_example :
             r_wf r = true /\ length (r_items r) = 1 /\ saved (r_stash r) = [tI "x"].
 Proof. eexists. split; [vm_compute; reflexivity|]. repeat split. Qed.
 
-(* ---- the incomplete media query that is reported wellformed (finding PP-mq-incomplete-accepted): the statement
-     "wellformed -> the token list is a complete media query" is refuted by  print and ,  -- Missing under
-     stopIfNoMoreMatch (l.579-589) stops the parse with wellformed untouched and the exhausted-check skipped *)
+(* ---- an incomplete media query is not wellformed (fix 1 below, finding PP-mq-incomplete-accepted): on the pinned
+     tree  print and ,  was reported wellformed with seq `print and` -- Missing under stopIfNoMoreMatch (l.579-589)
+     stopped the parse with wellformed untouched, the exhausted-check skipped and the token pushed back.  Repaired code:
+     a Missing ParseError is an error whatever stopIfNoMoreMatch says; the production search reporting Missing makes
+     the main loop stop with wellformed = false and the stash untouched -- for every tree and state *)
 Definition tC (v : string) : tok := mkTok (s "CHAR") (s v) (s v) 0 0.
 Definition tS : tok := mkTok (s "S") (s " ") (s " ") 0 0.
-Theorem media_query_rejects_incomplete_refuted :
+Theorem missing_is_error :
+  forall o sub postof t st stack, o_checkS o = false ->
+  eqs (ty t) (s "COMMENT") = false -> eqs (ty t) (s "S") = false -> eqs (ty t) (s "INVALID") = false ->
+  eqs (ty t) (s "EOF") = false ->
+  find (find_fuel (l_stack st)) (l_stack st) t = FParseErr stack ->
+  exists st', body o sub postof t st = LBreak st' /\ l_wf st' = false /\ l_stash st' = l_stash st /\ l_stopall st' = l_stopall st.
+Proof.
+  intros o sub postof t st stack Hc H1 H2 H3 H4 Hf. unfold body. rewrite Hc, H1, H2, H3, H4. cbn [andb negb].
+  rewrite andb_false_r. cbn [andb]. cbn [l_stack set_started]. rewrite Hf. eexists. split; [reflexivity|]. repeat split.
+Qed.
+Print Assumptions missing_is_error.
+Theorem media_query_rejects_incomplete_example :
   exists r, pparse 6 env_real true opts0 tree_MediaQuery [tI "print"; tS; tI "and"; tS; tC ","] stash0 = Ret r /\
-            r_wf r = true /\ map item_text (r_items r) = [s "print"; s "and"] /\ pushed (r_stash r) = [tC ","].
+            r_wf r = false /\ pushed (r_stash r) = [] /\ saved (r_stash r) = [].
 Proof. eexists. split; [vm_compute; reflexivity|]. repeat split. Qed.
-Print Assumptions media_query_rejects_incomplete_refuted.
+Print Assumptions media_query_rejects_incomplete_example.
 
 (* ---- never spins: on well-formed trees no loop of the engine runs forever (for all environments, trees, token lists) *)
 Theorem pparse_terminates :
@@ -177,16 +191,23 @@ Theorem value_ctor_total_mod_depth :
   (pparse_env d env_real g toks = DepthOut \/ exists r, pparse_env d env_real g toks = Ret r /\ post pc r <> PCrash).
 Proof. exact ProdParserSafe.value_ctor_total_mod_depth. Qed.
 Print Assumptions value_ctor_total_mod_depth.
-(* the public constructors Value / URIValue / DimensionValue / ColorValue DO raise on their own (findings
-   PP-*-ctor-leading-comment, PP-value-ctor-eof): as sub-parsers their first token is the one the caller matched *)
-Theorem value_leaf_ctor_total_refuted :
+(* the public constructors Value / URIValue / DimensionValue / ColorValue read their first NON-COMMENT item and report
+   "no value" when there is none (fix 2; on the pinned tree [EOF] raised IndexError, a leading comment TypeError /
+   UnboundLocalError or became the value): they return on every sane token run, for every depth budget *)
+Theorem value_leaf_ctor_total :
+  forall g, 4 <= g <= 7 -> forall toks d, sane_toks toks ->
+  exists pc, postof_env env_real g = Some pc /\
+  (pparse_env d env_real g toks = DepthOut \/ exists r, pparse_env d env_real g toks = Ret r /\ post pc r <> PCrash).
+Proof. exact ProdParserSafe.value_leaf_ctor_total. Qed.
+Print Assumptions value_leaf_ctor_total.
+Theorem value_leaf_ctor_witnesses_fixed :
   sane_toks [eof_tok] /\ sane_toks [tk "COMMENT" "/**/"; tk "NUMBER" "1"] /\
-  build 3 env_real gid_Value [eof_tok] = Some PCrash /\
-  build 3 env_real gid_URIValue [eof_tok] = Some PCrash /\
-  build 3 env_real gid_DimensionValue [tk "COMMENT" "/**/"; tk "NUMBER" "1"] = Some PCrash /\
-  build 3 env_real gid_ColorValue [tk "COMMENT" "/**/"; tk "IDENT" "red"] = Some PCrash.
-Proof. exact value_ctor_refuted. Qed.
-Print Assumptions value_leaf_ctor_total_refuted.
+  (exists its mt, build 3 env_real gid_Value [eof_tok] = Some (PRet false its mt)) /\
+  (exists its mt, build 3 env_real gid_URIValue [eof_tok] = Some (PRet false its mt)) /\
+  (exists its mt, build 3 env_real gid_DimensionValue [tk "COMMENT" "/**/"; tk "NUMBER" "1"] = Some (PRet true its mt)) /\
+  (exists its mt, build 3 env_real gid_ColorValue [tk "COMMENT" "/**/"; tk "IDENT" "red"] = Some (PRet true its mt)).
+Proof. exact value_ctor_witnesses_fixed. Qed.
+Print Assumptions value_leaf_ctor_witnesses_fixed.
 
 (* ---- the side condition `sane` is a theorem about the tokenizer model: every token list Tokenizer.tokenize returns is
    sane (STRING tokens are quoted: C01's string_tokens_quoted_lemma; S tokens are never + or -), hence the media leaf
@@ -227,3 +248,44 @@ Theorem value_leaf_returns_tokenized :
   exists st', value_leaf St commit st run = ParseTotal.Returned st'.
 Proof. exact ProdParserBridge.value_leaf_returns_tokenized. Qed.
 Print Assumptions value_leaf_returns_tokenized.
+
+(* ---- media_query_accepts (replaces C02/C05's media_grammar_faithful for the queries it covers): every media query of
+   the project's AST (Grammar.mquery) with a KNOWN media type (or starting with an expression) and value-free
+   expressions, rendered in ANY layout (gaps of whitespace/comments, letter case of only/not/and), is accepted by the
+   MediaQuery grammar, for every depth budget; the seq is exactly the rendered tokens without whitespace (comments as
+   CSSComment items), nothing is left in the stream or the stash, and mediaType is the type iff the query is simple *)
+Theorem media_query_accepts :
+  forall q lay, wf_mq q ->
+  exists r, pparse 6 env_real true opts0 tree_MediaQuery (Grammar.r_mquery lay q) stash0 = Ret r /\
+            r_wf r = true /\ r_items r = x_mquery lay q /\ mq_mediatype (r_store r) = simple_type q /\
+            r_rest r = [] /\ saved (r_stash r) = [].
+Proof. exact ProdParserMedia.media_query_accepts. Qed.
+Print Assumptions media_query_accepts.
+Theorem media_query_accepts_tokens :
+  forall q lay, wf_mq q ->
+  exists r, pparse 6 env_real true opts0 tree_MediaQuery (Grammar.r_mquery lay q) stash0 = Ret r /\
+            r_wf r = true /\ r_items r = tok_items (Grammar.r_mquery lay q).
+Proof.
+  intros q lay H. destruct (ProdParserMedia.media_query_accepts_tokens q lay H) as [r Hr]. exists r.
+  repeat match type of Hr with _ /\ _ => destruct Hr as [? Hr] end. repeat split; assumption.
+Qed.
+Print Assumptions media_query_accepts_tokens.
+
+(* ---- the push-back cell tokenizer._pushed: on the repaired code the only write is the stopAndKeep branch, so a parse
+   over trees without a stopAndKeep production leaves it as it was or emptied by a sub-parser's ProdParser(); the
+   media grammars and every value constructor except PropertyValue (whose `END ;` production is the only stopAndKeep
+   production of the library) never write it -- the cell of C06's Globals.v that finding PP-pushback-lost is about *)
+Theorem pparse_never_pushes :
+  forall dom d env clear o t toks sh r,
+  nokeep_dom dom env -> tallb (nokeep dom) t = true -> clear = true \/ pushed sh = [] ->
+  pparse d env clear o t toks sh = Ret r -> pushed (r_stash r) = [].
+Proof. exact ProdParserPushed.pparse_never_pushes. Qed.
+Print Assumptions pparse_never_pushes.
+Theorem media_never_pushes :
+  forall toks d r, pparse_env d env_real gid_MediaList toks = Ret r -> pushed (r_stash r) = [].
+Proof. exact ProdParserPushed.media_never_pushes. Qed.
+Print Assumptions media_never_pushes.
+Theorem ctor_never_pushes :
+  forall g, g <> gid_PropertyValue -> forall toks d r, pparse_env d env_real g toks = Ret r -> pushed (r_stash r) = [].
+Proof. exact ProdParserPushed.ctor_never_pushes. Qed.
+Print Assumptions ctor_never_pushes.
